@@ -65,7 +65,7 @@ def layouts(tier, seed, salt):
     add(8, 3, 0, [{"w": 24, "acc": "rw", "addr": 1}, {"w": 24, "acc": "rw", "addr": 4}])
     add(8, 5, 0, [{"w": 24, "acc": "rw", "addr": 3}, {"w": 40, "acc": "rw", "addr": 9} if max_chunks >= 5 else {"w": 24, "acc": "r", "addr": 9},
                   {"w": 8, "acc": "rw", "addr": 1}])
-    want = 120 if tier == "quick" else 3000
+    want = 120 if tier == "quick" else 1000
     widths = lambda dw: [0, 1, dw - 1, dw, dw + 1, 2 * dw, 2 * dw + 3, 3 * dw, 4 * dw] + \
         ([5 * dw + 1, 6 * dw] if tier == "thorough" else [])
     tries = 0
